@@ -270,9 +270,13 @@ def r2_attr_copy(report, repo):
   report.check(ok, rule, f.qualname, 'all-fields', f.node,
                'iterates attr.fields(type(obj))')
   g = lib.cfg(f)
+  # the dict the new instance is built from: type(obj)(**<name>)
+  kwn = [dotted(k.value) for r in walk_no_nested(f.node)
+         if isinstance(r, ast.Return) and isinstance(r.value, ast.Call)
+         for k in r.value.keywords if k.arg is None]
   stores = [n for n in g.nodes if n.kind == 'stmt' and isinstance(
       n.ast, ast.Assign) and isinstance(n.ast.targets[0], ast.Subscript) and
-            dotted(n.ast.targets[0].value) == 'kwargs']
+            dotted(n.ast.targets[0].value) in kwn]
   ok = len(stores) == 1
   if ok:
     v = stores[0].ast.value
@@ -328,7 +332,9 @@ def r3_per_run_state(report, repo):
               'diagnoses manager / state dict fresh and deep-copies metadata; '
               'TestExecutor._thread_proc creates a new TestState per run')
   f = repo.func(TS, 'PhaseState.from_descriptor')
-  defs = lib.resolve_local(f, 'measurements_copy')
+  mc = lib.local_from(f, lib.contains_call(name='copy.deepcopy'),
+                      'measurements_copy')
+  defs = lib.resolve_local(f, mc)
   ok = len(defs) == 1 and isinstance(defs[0], ast.ListComp) and \
       call_name(defs[0].elt) == 'copy.deepcopy' and \
       (dotted(defs[0].generators[0].iter) or '').endswith('.measurements')
@@ -341,7 +347,7 @@ def r3_per_run_state(report, repo):
   if ok:
     mv = core.get_kw(cs[0], 'measurements')
     ok = mv is not None and any(
-        isinstance(x, ast.Name) and x.id == 'measurements_copy'
+        isinstance(x, ast.Name) and x.id == mc
         for x in ast.walk(mv)) and not any(
             isinstance(x, ast.Attribute) and x.attr == 'measurements' and
             dotted(x.value) == lib.param_names(f.node)[1]
